@@ -137,6 +137,21 @@ Definition be_apply (e : env) (st : state) (paths : list Z) (oldset newset : Z) 
 Definition rec_apply (e : env) (st : state) (paths : list Z) (newset : Z) : state * list write :=
   run (exact_step e) st (map (fun p => mkU p newset) paths).
 
+(* adjustByCPUSet in the configuration the harness fixes (every listed processor on its own core,
+   one NUMA node, nothing reserved, no LSR/LSE pods, kubelet policy none): the new BE cpuset is the
+   [k] lowest cpu ids of the node's processors [procs], k = max(ceil(milli/1000), 2) capped at
+   |old| + ceil(0.1 * n); more cpus wanted than available, or no processor: nothing is applied.
+   [old] is the cpuset of the besteffort root. *)
+Definition cpu_ids (m : Z) : list Z := filter (Z.testbit m) (map Z.of_nat (seq 0 63)).
+Definition mask_of (ids : list Z) : Z := fold_left (fun a i => Z.lor a (Z.shiftl 1 i)) ids 0.
+Definition adj_new (procs milli old : Z) : Z :=
+  let n := Z.of_nat (length (cpu_ids procs)) in
+  let no := Z.of_nat (length (cpu_ids old)) in
+  let c0 := Z.max ((milli + 999) / 1000) 2 in
+  let inc := (n + 9) / 10 in
+  let k := if inc <? c0 - no then no + inc else c0 in
+  if (n =? 0) || (n <? k) then 0 else mask_of (firstn (Z.to_nat k) (cpu_ids procs)).
+
 (* ---------- histories ---------- *)
 Inductive op :=
 | OBatch (levels : list (list updater))   (* one LeveledUpdateBatch call *)
@@ -144,8 +159,11 @@ Inductive op :=
 | OBe (paths : list Z) (old : option Z) (new : Z)
     (* one applyCPUSetWithNonePolicy call; [old = None]: oldCPUSet is the current cpuset of the
        first path (the BE root), which is what adjustByCPUSet passes *)
-| ORec (paths : list Z) (new : Z).
+| ORec (paths : list Z) (new : Z)
     (* one recoverCPUSetForBECPUManager / recoverCPUSetIfNeed call *)
+| OAdj (paths : list Z) (procs milli : Z).
+    (* one adjustByCPUSet call: old = the BE root's cpuset, new = [adj_new], then
+       applyCPUSetWithNonePolicy *)
 
 Definition be_old (fs : fmap) (paths : list Z) (old : option Z) : Z :=
   match old with Some o => o | None => get fs (hd 0 paths) end.
@@ -156,6 +174,8 @@ Definition step_op (e : env) (st : state) (o : op) : state * list write :=
   | OExpire k => (mkSt (sfs st) (del (scache st) k), [])
   | OBe paths old new => be_apply e st paths (be_old (sfs st) paths old) new
   | ORec paths new => rec_apply e st paths new
+  | OAdj paths procs milli =>
+      let o := get (sfs st) (hd 0 paths) in be_apply e st paths o (adj_new procs milli o)
   end.
 
 (* ---------- what the property speaks about ---------- *)
